@@ -16,6 +16,7 @@ EXPLANATION = (
     "R9.6 (shared with C08) the recognisers behind find_subcommand / find_short_subcmd / find_long_subcmd answer to the primary name or flag or ANY alias on every path. R9.7 parse_long_arg checks for a long flag-subcommand before the positional allow_hyphen_values fallback. R9.5b the remembered flag-subcommand position does not outlive its cluster: parse_short_arg clears flag_subcmd_at when it starts a cluster it is not resuming (skip == 0), before walking the flags — otherwise a later flag subcommand computes its resume offset from a stale position. R9.5c the resume offset covers the whole cluster: the position it is counted from is fixed before the first flag of the cluster is processed, not when the flag subcommand is met (flags in front of it, as in `-vSyu`, must be skipped by the sub-parser too). R9.8 the subcommand lookup for a token is skipped exactly in the states Opt and Pos (unless subcommand_precedence_over_arg). NOT decided: agreement of values at every level for all trees (needs execution)."
     ' R9.2 (added): the same tie rule when the comparison sits in a closure (operator/side table).'
     ' R9.5 (tightened): flag_subcmd_at is cleared on the (flag subcommand found, cluster exhausted) edge.'
+    " R9.5b (added): only ShortFlags::new builds utf8_prefix; every other writer may only empty it (index base of a resumed flag-subcommand cluster). R9.A accessor layer (lib/accessors.py): for the is_*_set / get_* accessors this property's rules name — the bool builder sets and unsets one flag on the right edges and the predicate reads that same flag; builder scope (global/local) as in audit/setting_scope.tsv; no two predicates/builders share a flag; setting/unset_setting/global_setting/is_set forward to the right flag word, the flag word is |=bit / &=!bit / &bit!=0 with bit = 1<<discriminant, _propagate_subcommand hands g_settings to the child's settings and g_settings; plain field getters return their field."
 )
 TRUSTED = ["rustc MIR", "clapfacts"]
 ASSUMPTIONS = ["FlatMap::insert replaces an existing entry"]
